@@ -135,23 +135,18 @@ theorem categorize_ok {s : RSys} {checks : List Check} {c : Categories} (h : cat
     c.depleted = s.keys.filter (fun k => categoryOf s.rxns k = .depleted) ∧
     c.unaffected = s.keys.filter (fun k => categoryOf s.rxns k = .unaffected) ∧
     c.nonparticipating = s.keys.filter (fun k => categoryOf s.rxns k = .nonparticipating) ∧
-    (s.rxns ≠ [] ∨ s.keys = []) ∧ ∀ ch ∈ checks, runCheck s ch = true := by
+    ∀ ch ∈ checks, runCheck s ch = true := by
   simp only [categorize] at h
   split at h
   · simp at h
   · rename_i irr hmk
     obtain ⟨rfl, hff⟩ := make_odict_ok hmk
-    split at h
-    · simp at h
-    · rename_i hne
-      simp only [Except.ok.injEq] at h
-      subst h
-      refine ⟨rfl, rfl, rfl, rfl, ?_, firstFailing_none hff⟩
-      simp only [Bool.and_eq_true, List.isEmpty_iff, Bool.not_eq_eq_eq_not, Bool.not_true, not_and,
-        Bool.not_eq_false] at hne
-      by_cases hr : s.rxns = []
-      · right; simpa [RSys.keys] using hne hr
-      · left; exact hr
+    simp only [Except.ok.injEq] at h
+    subst h
+    exact ⟨rfl, rfl, rfl, rfl, firstFailing_none hff⟩
+
+theorem categorize_nochecks (s : RSys) : ∃ c, categorize s [] = .ok c := by
+  simp [categorize, make_odict_nochecks]
 
 /-! ### Stoich.get and keys -/
 
@@ -1415,5 +1410,69 @@ theorem make_ok {rxns : List Rxn} {arg : SubstArg} {checks : List Check} {sort :
   · rename_i hff
     simp only [Except.ok.injEq] at h
     exact ⟨hff, h.symm⟩
+
+/-! ### concatenate and histories -/
+
+/-- what the definition of `concatenate` says about the reactions: a system's reactions whose four stoichiometry dicts
+equal those of no reaction accumulated so far are appended to the sum, the others go to the duplicates -/
+def concatRxns (st : List Rxn × List Rxn) (rs : RSys) : List Rxn × List Rxn :=
+  (st.1 ++ rs.rxns.filter (fun r => !(st.1.any fun rr => r.sameStoich rr)),
+   st.2 ++ rs.rxns.filter (fun r => st.1.any fun rr => r.sameStoich rr))
+
+theorem concatStep_rxns (st : RSys × RSys) (rs : RSys) :
+    ((concatStep st rs).1.rxns, (concatStep st rs).2.rxns) = concatRxns (st.1.rxns, st.2.rxns) rs := by
+  have e1 : concatPred st.1 = fun r => !(st.1.rxns.any fun rr => r.sameStoich rr) := rfl
+  have e2 : (fun r => !concatPred st.1 r) = fun r => st.1.rxns.any fun rr => r.sameStoich rr := by
+    funext r; simp [concatPred]
+  simp only [concatStep, subset_nochecks, add, iadd, concatRxns, e2]
+  rw [e1]
+
+theorem foldl_concatStep_rxns (rest : List RSys) (st : RSys × RSys) :
+    ((rest.foldl concatStep st).1.rxns, (rest.foldl concatStep st).2.rxns) =
+      rest.foldl concatRxns (st.1.rxns, st.2.rxns) := by
+  induction rest generalizing st with
+  | nil => rfl
+  | cons rs t ih => rw [List.foldl_cons, ih, concatStep_rxns, List.foldl_cons]
+
+theorem runOp_prefix (store store' : List RSys) (op : HOp) (hop : ∀ i j, op ≠ .iadd i j)
+    (h : runOp store op = .ok store') : store <+: store' := by
+  cases op with
+  | add i j =>
+    simp only [runOp] at h
+    split at h <;> simp only [Except.ok.injEq, reduceCtorEq] at h
+    exact ⟨_, h⟩
+  | iadd i j => exact absurd rfl (hop i j)
+  | subset i p =>
+    simp only [runOp] at h
+    split at h
+    · split at h <;> simp only [Except.ok.injEq, reduceCtorEq] at h
+      exact ⟨_, h⟩
+    · simp at h
+  | split i =>
+    simp only [runOp] at h
+    split at h
+    · split at h <;> simp only [Except.ok.injEq, reduceCtorEq] at h
+      exact ⟨_, h⟩
+    · simp at h
+  | concat is =>
+    simp only [runOp] at h
+    split at h
+    · split at h
+      · simp only [Except.ok.injEq] at h
+        split at h <;> exact ⟨_, h⟩
+      · simp at h
+    · simp at h
+
+theorem runHistory_prefix (ops : List HOp) (hops : ∀ op ∈ ops, ∀ i j, op ≠ .iadd i j) (store store' : List RSys)
+    (h : runHistory store ops = .ok store') : store <+: store' := by
+  induction ops generalizing store with
+  | nil => simp only [runHistory, Except.ok.injEq] at h; subst h; exact List.prefix_refl _
+  | cons op t ih =>
+    simp only [runHistory] at h
+    split at h
+    · simp at h
+    · rename_i st hst
+      exact (runOp_prefix store st op (hops op (by simp)) hst).trans
+        (ih (fun o ho => hops o (by simp [ho])) st h)
 
 end ChemModel.RSysGraph
